@@ -76,6 +76,12 @@ def alias_closure(body, start):
                         for b in walk(a["pat"]):
                             if b["k"] == "PIdent" and not b["name"][:1].isupper():
                                 add(b["name"])
+            elif k == "MethodCall" and n["args"] and n["args"][-1].get("k") == "Closure" and n["method"] in ("any", "all", "map", "for_each", "try_for_each", "find", "position", "filter", "flat_map", "iter_any"):
+                if {p["path"] for p in walk(n["recv"]) if p["k"] == "Path"} & reach:
+                    for pp in n["args"][-1]["inputs"]:
+                        for b in walk(pp):
+                            if b["k"] == "PIdent":
+                                add(b["name"])
             elif k == "MethodCall" and n["method"] in ("push", "append", "extend", "clone_from", "insert") and n["args"]:
                 if any({p["path"] for p in walk(a) if p["k"] == "Path"} & reach for a in n["args"]):
                     r = strip(n["recv"])
